@@ -1,4 +1,4 @@
-CONSTANTS Classes = ${Classes}  HealthClasses = ${HealthClasses}  Formats = ${Formats}  Fields = ${Fields}  Mutations = ${Mutations}  ValueClasses = ${ValueClasses}
+CONSTANTS Classes = ${Classes}  HealthClasses = ${HealthClasses}  Formats = ${Formats}  Fields = ${Fields}  FleetClasses = ${FleetClasses}  Mutations = ${Mutations}  ValueClasses = ${ValueClasses}
 INIT GenInit
 NEXT GenNext
 INVARIANT Export
